@@ -10,7 +10,7 @@ tiling (what tpc_begin guarantees: C04).  These are the representation-invariant
 (fs_open proves read_index establishes them on open)."""
 import z3
 
-from pyvc import prims, timestamp
+from pyvc import contract, prims, timestamp
 from pyvc.contract import LoopSpec, Outcome, Spec
 from pyvc.engine import ContractStale, bytes_num
 from pyvc.ground import All
@@ -486,3 +486,115 @@ def slice_or_empty(c, v, arr, off, ln):
 
 
 SPECS.append(UndoSearchReadnext)
+
+
+# ======================================================================================
+class FileIteratorNext(ScanSpec):
+    """FileIterator.__next__ (storage.iterator(start, stop) after the start scan): standing on a transaction boundary
+    of the tiling it yields THAT transaction - its tid, status, user, description and extension as stored, the record
+    range [pos + header length, pos + tl) and its position - and moves to the next boundary; it ends (closes and raises
+    StopIteration) exactly at the end of the file, at the first transaction later than `stop` (stop is INCLUSIVE) or
+    at a transaction still flagged as a checkpoint (voted, not finished).
+    TransactionRecord(...) is taken as storing its arguments (constructor stand-in)."""
+    func = FI + '.__next__'
+    props = ('C17',)
+    cases = ('no-stop', 'stop')
+    assumptions = ('TransactionRecord(tid, status, user, desc, ext, pos, tend, file, tpos) stores its arguments '
+                   '(constructor stand-in)', 'no old-style undone transaction (status u) in the file')
+
+    def setup(self, c, case=None):
+        a = ScanSpec.setup(self, c, case)
+        g = c.ghost['it']
+        S = c.obj(g['me']).f
+        S['_pos'] = a['pos']
+        S['_ltid'] = c.fresh_bytes(8, '_ltid')
+        S['_stop'] = c.fresh_bytes(8, 'stop') if case == 'stop' else NONE
+        c.obj(g['f']).meta['name'] = 'Data.fs'
+        g['made'] = []
+        return {'self': g['me']}
+
+    def requires(self, c, E):
+        g = c.ghost['it']
+        arr, isB, eof = g['arr'], g['isB'], g['eof']
+        pos = g['pos0']
+        t = M.txn(arr, pos)
+        return self.tiling(c) + [
+            ('stands-on-a-transaction-boundary', z3.And(z3.Select(isB, pos), pos >= 4, pos <= eof)),
+            ('header-fits-the-transaction-and-status-is-one-of-the-format', z3.Implies(pos < eof, z3.And(
+                23 + t['ul'] + t['dl'] + t['el'] <= t['tl'], t['ul'] >= 0, t['dl'] >= 0, t['el'] >= 0,
+                z3.Or(t['status'] == 32, t['status'] == ord('p'), t['status'] == ord('c')))))]
+
+    def hooks(self, c):
+        def trec(cc, interp, args, kwargs, node):
+            names = ('tid', 'status', 'user', 'description', 'extension_bytes', '_pos', '_tend', '_file', '_tpos')
+            r = inst(cc, 'ZODB.FileStorage.FileStorage:TransactionRecord', **dict(zip(names, args)))
+            cc.ghost['it']['made'].append(r)
+            return r
+
+        def close(cc, args, kwargs, node):
+            cc.event('closed')
+            cc.obj(args[0]).f['_file'] = NONE
+            return NONE
+        return {'construct:ZODB.FileStorage.FileStorage:TransactionRecord': trec, 'call:' + FI + '.close': close}
+
+    @property
+    def loops(self):
+        def inv(cc, fr):
+            p = fr.locals.get('pos')
+            if not isinstance(p, VInt):
+                raise ContractStale('the loop contract expects the local pos: the code has a different shape')
+            g = cc.ghost['it']
+            old = cc.E.old[g['me'].id]
+            S = cc.obj(g['me']).f
+            return [('every-iteration-leaves-the-loop (still at the entry position)', z3.And(
+                p.t == g['pos0'], S['_pos'].t == g['pos0'], contract.same_value(cc, S['_ltid'], old['_ltid'])))]
+
+        def hv(cc, fr):
+            cc.obj(cc.ghost['it']['f']).f['pos'] = z3.Int(fresh_name('fpos'))
+        none = lambda cc, fr: NONE
+        return {0: LoopSpec(inv=inv, havoc=hv, kinds={'h': none, 'result': none, 'err': none})}
+
+    def modifies(self, c, E):
+        g = c.ghost['it']
+        return {(g['f'].id, 'pos'), (g['me'].id, '_pos'), (g['me'].id, '_ltid'), (g['me'].id, '_file')}
+
+    def outcomes(self, c, E):
+        from .fs_format import slice_is
+        g = c.ghost['it']
+        arr, eof, pos = g['arr'], g['eof'], g['pos0']
+        S0 = c.obj(g['me']).f
+        t = M.txn(arr, pos)
+        stop = S0['_stop']
+        past_stop = z3.BoolVal(False) if isinstance(stop, VNone) else t['tid'] > bytes_num(c, stop)
+        ends = z3.Or(pos >= eof, past_stop, t['status'] == ord('c'))
+        hl = 23 + t['ul'] + t['dl'] + t['el']
+
+        def post(cc, E, r):
+            ok = isinstance(r, VRef) and len(g['made']) == 1 and r.id == g['made'][0].id
+            if not ok:
+                return [('returns-one-new-transaction-record', False)]
+            f = cc.obj(r).f
+            S = cc.obj(g['me']).f
+            st = f.get('status')
+            return [('tid-as-stored', b8_eq_num(cc, f.get('tid'), t['tid'])),
+                    ('status-as-stored', isinstance(st, VStr) and st.code_terms() is not None and
+                     len(st.code_terms()) == 1 and st.code_terms()[0] == t['status']),
+                    ('user-as-stored', slice_is(cc, f.get('user'), arr, pos + 23, t['ul'])),
+                    ('description-as-stored', slice_is(cc, f.get('description'), arr, pos + 23 + t['ul'], t['dl'])),
+                    ('extension-as-stored', slice_is(cc, f.get('extension_bytes'), arr, pos + 23 + t['ul'] + t['dl'],
+                                                     t['el'])),
+                    ('records-from-the-end-of-the-header', field_eq(cc, f.get('_pos'), pos + hl)),
+                    ('records-up-to-the-end-of-the-transaction', field_eq(cc, f.get('_tend'), pos + t['tl'])),
+                    ('its-position', field_eq(cc, f.get('_tpos'), pos)),
+                    ('reads-the-same-file', isinstance(f.get('_file'), VRef) and f['_file'].id == g['f'].id),
+                    ('moved-to-the-next-boundary', S['_pos'].t == pos + t['tl'] + 8),
+                    ('last-tid-remembered', b8_eq_num(cc, S['_ltid'], t['tid']))]
+
+        def ended(cc, E, x):
+            return [('closed', any(e[0] == 'closed' for e in cc.events))]
+        return [Outcome('transaction', guard=z3.Not(ends), post=post, result=lambda cc, E: cc.fresh_opaque('txn')),
+                Outcome('end', 'raise', 'builtins:StopIteration', guard=ends, post=ended)]
+
+
+SPECS.append(FileIteratorNext)
+INLINE += ['ZODB.FileStorage.format:TxnHeader.headerlen']
